@@ -6,41 +6,41 @@ namespace ImathVerif.Gen
 open ImathVerif
 
 /-- extracted from the C++ template at T = Sym; 8 path(s) -/
-def Frame.computeLocalFrame {α : Type} [Add α] [Sub α] [Mul α] [Div α] [Neg α] [LT α] [LE α] [DecidableLT α] [DecidableLE α] [DecidableEq α] [OfNat α 0] [OfNat α 1] [OfNat α 2] (tmin : α) (sqrt : α → α) (p : V3 α) (xDir : V3 α) (normal : V3 α) : (M44 α) :=
-  let t1939 := (V3.length tmin sqrt ⟨xDir.x, xDir.y, xDir.z⟩)
+def Frame.computeLocalFrame {α : Type} [Add α] [Sub α] [Mul α] [Div α] [Neg α] [LT α] [LE α] [DecidableLT α] [DecidableLE α] [DecidableEq α] [OfNat α 0] [OfNat α 1] [OfNat α 2] (tmin : α) (tmax : α) (sqrt : α → α) (p : V3 α) (xDir : V3 α) (normal : V3 α) : (M44 α) :=
+  let t1939 := (V3.length tmin tmax sqrt ⟨xDir.x, xDir.y, xDir.z⟩)
   let t1942 := ((normal.x * xDir.y) - (normal.y * xDir.x))
   let t1945 := ((normal.z * xDir.x) - (normal.x * xDir.z))
   let t1948 := ((normal.y * xDir.z) - (normal.z * xDir.y))
-  let t1949 := (V3.length tmin sqrt ⟨t1948, t1945, t1942⟩)
+  let t1949 := (V3.length tmin tmax sqrt ⟨t1948, t1945, t1942⟩)
   let t1952 := ((xDir.x * t1945) - (xDir.y * t1948))
   let t1955 := ((xDir.z * t1948) - (xDir.x * t1942))
   let t1958 := ((xDir.y * t1942) - (xDir.z * t1945))
-  let t1959 := (V3.length tmin sqrt ⟨t1958, t1955, t1952⟩)
+  let t1959 := (V3.length tmin tmax sqrt ⟨t1958, t1955, t1952⟩)
   let t1963 := (t1948 / t1949)
   let t1964 := (t1945 / t1949)
   let t1965 := (t1942 / t1949)
   let t1968 := ((xDir.x * t1964) - (xDir.y * t1963))
   let t1971 := ((xDir.z * t1963) - (xDir.x * t1965))
   let t1974 := ((xDir.y * t1965) - (xDir.z * t1964))
-  let t1975 := (V3.length tmin sqrt ⟨t1974, t1971, t1968⟩)
+  let t1975 := (V3.length tmin tmax sqrt ⟨t1974, t1971, t1968⟩)
   let t1979 := (xDir.x / t1939)
   let t1980 := (xDir.y / t1939)
   let t1981 := (xDir.z / t1939)
   let t1984 := ((normal.x * t1980) - (normal.y * t1979))
   let t1987 := ((normal.z * t1979) - (normal.x * t1981))
   let t1990 := ((normal.y * t1981) - (normal.z * t1980))
-  let t1991 := (V3.length tmin sqrt ⟨t1990, t1987, t1984⟩)
+  let t1991 := (V3.length tmin tmax sqrt ⟨t1990, t1987, t1984⟩)
   let t1994 := ((t1979 * t1987) - (t1980 * t1990))
   let t1997 := ((t1981 * t1990) - (t1979 * t1984))
   let t2000 := ((t1980 * t1984) - (t1981 * t1987))
-  let t2001 := (V3.length tmin sqrt ⟨t2000, t1997, t1994⟩)
+  let t2001 := (V3.length tmin tmax sqrt ⟨t2000, t1997, t1994⟩)
   let t2005 := (t1990 / t1991)
   let t2006 := (t1987 / t1991)
   let t2007 := (t1984 / t1991)
   let t2010 := ((t1979 * t2006) - (t1980 * t2005))
   let t2013 := ((t1981 * t2005) - (t1979 * t2007))
   let t2016 := ((t1980 * t2007) - (t1981 * t2006))
-  let t2017 := (V3.length tmin sqrt ⟨t2016, t2013, t2010⟩)
+  let t2017 := (V3.length tmin tmax sqrt ⟨t2016, t2013, t2010⟩)
   if t1939 = (0 : α) then
     if t1949 = (0 : α) then
       if t1959 = (0 : α) then
@@ -153,11 +153,11 @@ def Frame.addOffset {α : Type} [Add α] [Mul α] [Div α] [Neg α] [OfNat α 0]
   ⟨((((t2255 * ref.x00) + (t2262 * ref.x10)) + (t2269 * ref.x20)) + (t2276 * ref.x30)), ((((t2255 * ref.x01) + (t2262 * ref.x11)) + (t2269 * ref.x21)) + (t2276 * ref.x31)), ((((t2255 * ref.x02) + (t2262 * ref.x12)) + (t2269 * ref.x22)) + (t2276 * ref.x32)), ((((t2255 * ref.x03) + (t2262 * ref.x13)) + (t2269 * ref.x23)) + (t2276 * ref.x33)), ((((t2283 * ref.x00) + (t2290 * ref.x10)) + (t2297 * ref.x20)) + (t2304 * ref.x30)), ((((t2283 * ref.x01) + (t2290 * ref.x11)) + (t2297 * ref.x21)) + (t2304 * ref.x31)), ((((t2283 * ref.x02) + (t2290 * ref.x12)) + (t2297 * ref.x22)) + (t2304 * ref.x32)), ((((t2283 * ref.x03) + (t2290 * ref.x13)) + (t2297 * ref.x23)) + (t2304 * ref.x33)), ((((t2311 * ref.x00) + (t2318 * ref.x10)) + (t2325 * ref.x20)) + (t2332 * ref.x30)), ((((t2311 * ref.x01) + (t2318 * ref.x11)) + (t2325 * ref.x21)) + (t2332 * ref.x31)), ((((t2311 * ref.x02) + (t2318 * ref.x12)) + (t2325 * ref.x22)) + (t2332 * ref.x32)), ((((t2311 * ref.x03) + (t2318 * ref.x13)) + (t2325 * ref.x23)) + (t2332 * ref.x33)), ((((t2339 * ref.x00) + (t2346 * ref.x10)) + (t2353 * ref.x20)) + (t2360 * ref.x30)), ((((t2339 * ref.x01) + (t2346 * ref.x11)) + (t2353 * ref.x21)) + (t2360 * ref.x31)), ((((t2339 * ref.x02) + (t2346 * ref.x12)) + (t2353 * ref.x22)) + (t2360 * ref.x32)), ((((t2339 * ref.x03) + (t2346 * ref.x13)) + (t2353 * ref.x23)) + (t2360 * ref.x33))⟩
 
 /-- extracted from the C++ template at T = Sym; 18 path(s) -/
-def Frame.firstFrame {α : Type} [Add α] [Sub α] [Mul α] [Div α] [Neg α] [LT α] [LE α] [DecidableLT α] [DecidableLE α] [DecidableEq α] [OfNat α 0] [OfNat α 1] [OfNat α 2] (tmin : α) (sqrt : α → α) (pi : V3 α) (pj : V3 α) (pk : V3 α) : Except Exc (M44 α) :=
+def Frame.firstFrame {α : Type} [Add α] [Sub α] [Mul α] [Div α] [Neg α] [LT α] [LE α] [DecidableLT α] [DecidableLE α] [DecidableEq α] [OfNat α 0] [OfNat α 1] [OfNat α 2] (tmin : α) (tmax : α) (sqrt : α → α) (pi : V3 α) (pj : V3 α) (pk : V3 α) : Except Exc (M44 α) :=
   let t32 := (pj.z - pi.z)
   let t33 := (pj.y - pi.y)
   let t34 := (pj.x - pi.x)
-  let t2476 := (V3.length tmin sqrt ⟨t34, t33, t32⟩)
+  let t2476 := (V3.length tmin tmax sqrt ⟨t34, t33, t32⟩)
   let t2477 := (t34 / t2476)
   let t2478 := (t33 / t2476)
   let t2479 := (t32 / t2476)
@@ -167,7 +167,7 @@ def Frame.firstFrame {α : Type} [Add α] [Sub α] [Mul α] [Div α] [Neg α] [L
   let t2485 := ((t2477 * t2481) - (t2478 * t2482))
   let t2488 := ((t2479 * t2482) - (t2477 * t2480))
   let t2491 := ((t2478 * t2480) - (t2479 * t2481))
-  let t2492 := (V3.length tmin sqrt ⟨t2491, t2488, t2485⟩)
+  let t2492 := (V3.length tmin tmax sqrt ⟨t2491, t2488, t2485⟩)
   let t2493 := (sabs t2478)
   let t2494 := (sabs t2477)
   let t2495 := (sabs t2479)
@@ -179,7 +179,7 @@ def Frame.firstFrame {α : Type} [Add α] [Sub α] [Mul α] [Div α] [Neg α] [L
   let t2501 := (t2500 - t2499)
   let t2502 := (t2478 * (1 : α))
   let t2503 := (t2502 - t2500)
-  let t2504 := (V3.length tmin sqrt ⟨t2503, t2501, t2498⟩)
+  let t2504 := (V3.length tmin tmax sqrt ⟨t2503, t2501, t2498⟩)
   let t2507 := ((t2477 * t2501) - (t2478 * t2503))
   let t2510 := ((t2479 * t2503) - (t2477 * t2498))
   let t2513 := ((t2478 * t2498) - (t2479 * t2501))
@@ -193,7 +193,7 @@ def Frame.firstFrame {α : Type} [Add α] [Sub α] [Mul α] [Div α] [Neg α] [L
   let t2527 := (t2479 * (1 : α))
   let t2528 := (t2527 - t2497)
   let t2529 := (t2496 - t2500)
-  let t2530 := (V3.length tmin sqrt ⟨t2529, t2528, t2526⟩)
+  let t2530 := (V3.length tmin tmax sqrt ⟨t2529, t2528, t2526⟩)
   let t2533 := ((t2477 * t2528) - (t2478 * t2529))
   let t2536 := ((t2479 * t2529) - (t2477 * t2526))
   let t2539 := ((t2478 * t2526) - (t2479 * t2528))
@@ -206,7 +206,7 @@ def Frame.firstFrame {α : Type} [Add α] [Sub α] [Mul α] [Div α] [Neg α] [L
   let t2552 := (t2499 - t2496)
   let t2553 := (t2500 - t2497)
   let t2554 := (t2496 - t2527)
-  let t2555 := (V3.length tmin sqrt ⟨t2554, t2553, t2552⟩)
+  let t2555 := (V3.length tmin tmax sqrt ⟨t2554, t2553, t2552⟩)
   let t2558 := ((t2477 * t2553) - (t2478 * t2554))
   let t2561 := ((t2479 * t2554) - (t2477 * t2552))
   let t2564 := ((t2478 * t2552) - (t2479 * t2553))
@@ -219,7 +219,7 @@ def Frame.firstFrame {α : Type} [Add α] [Sub α] [Mul α] [Div α] [Neg α] [L
   let t2577 := (t2491 / t2492)
   let t2578 := (t2488 / t2492)
   let t2579 := (t2485 / t2492)
-  let t2580 := (V3.length tmin sqrt ⟨t2577, t2578, t2579⟩)
+  let t2580 := (V3.length tmin tmax sqrt ⟨t2577, t2578, t2579⟩)
   if t2476 = (0 : α) then
     .error Exc.domainError
   else
